@@ -178,6 +178,9 @@ func (e *Engine) intrinsic(st *State, fr *Frame, in ssa.CallInstruction, name st
 			st.mapUsed = true
 		}
 		return nil
+	case "vfGoMode": // 0: goroutines run where they are spawned; 1: when the spawner waits
+		st.goLazy = e.needInt(st, args[0], "goroutine mode") == 1
+		return nil
 	case "vfMapOrderSite": // (site int): permute only that range-over-map site
 		st.mapMode = 4
 		st.mapUsed = true
